@@ -44,6 +44,8 @@ SIGNAL_CONFIGS = {
     "ignore": {"SIGINT": signal.SIG_IGN, "SIGTERM": signal.SIG_IGN, "SIGCHLD": signal.SIG_IGN},
     "callable": {"SIGINT": _h_callable, "SIGTERM": _h_callable, "SIGCHLD": _h_callable},
     "mixed": {"SIGINT": signal.default_int_handler, "SIGTERM": _h_callable, "SIGCHLD": signal.SIG_IGN},
+    # as "default", and the application has already replaced reactor.stop on the reactor object
+    "stopwrap": {"SIGINT": signal.default_int_handler, "SIGTERM": signal.SIG_DFL, "SIGCHLD": signal.SIG_DFL},
 }
 
 KINDS = (
@@ -199,6 +201,14 @@ def execute(scenario, chooser):
                 spinner.clear_junk()
                 model_junk_pending = False
             rec = RunRecord()
+            if sigcfg == "stopwrap":
+                class_stop = type(reactor).stop
+
+                def app_stop(*a, **kw):
+                    return class_stop(reactor, *a, **kw)
+
+                reactor.stop = app_stop
+                real_stop = app_stop
             fn = make_function(reactor, spinner, spec, rec, idx)
             reactor.arm(chooser, max_interrupts=1, ties=True)
             before_calls = list(reactor.getDelayedCalls())
@@ -261,8 +271,8 @@ def execute(scenario, chooser):
             extra_sel = [r for r in reactor.getReaders() if r is not reactor.waker] + list(reactor.getWriters())
             if extra_sel:
                 problems.append(("cleanup", "%s: reactor holds selectables %r" % (where, extra_sel)))
-            if reactor.stop != real_stop:
-                problems.append(("restore-stop", "%s: reactor.stop is %r afterwards" % (where, reactor.stop)))
+            if reactor.stop != real_stop or (sigcfg == "stopwrap" and reactor.stop is not real_stop):
+                problems.append(("restore-stop", "%s: reactor.stop is %r afterwards, was %r" % (where, reactor.stop, real_stop)))
             for name, h in SIGNAL_CONFIGS[sigcfg].items():
                 now = signal.getsignal(getattr(signal, name))
                 if now is not h and now != h:
